@@ -129,6 +129,11 @@ def check_raw_values(ctx, F, tag):
     alarm_fns = {}
     for key, a in an.alarms.items():
         alarm_fns.setdefault(a["fn"], []).append(key)
+    # every sink site of the crate is registered: an alarm at a site the pinned tree has is a regression (a bound was lost somewhere
+    # on the way to it), an alarm at arithmetic that is new is code A3 cannot judge (its bound may be an invariant, not a comparison)
+    for k in an.sink_inventory():
+        ctx.site("C09.R1.raw-value-bounded|%s%s" % (k, tag))
+    known = lambda key: ctx.site_known("C09.R1.raw-value-bounded|%s%s" % (key, tag))
     # one obligation per function reached with a raw value: all its raw sites are bounded
     for fn in sorted(an.raw_params):
         keys = alarm_fns.get(fn, [])
@@ -145,7 +150,7 @@ def check_raw_values(ctx, F, tag):
             if callers:
                 ctx.ob("C09.R1.raw-value-bounded", key + tag, a["where"], False, "guard-dominance",
                        "%s is defined for arguments up to len (%s); it is reached with an unclamped caller-supplied value from %s, so the result is "
-                       "index - count_ones instead of the documented answer at len" % (a["fn"], EXEMPT[ex[0]][:60], callers))
+                       "index - count_ones instead of the documented answer at len" % (a["fn"], EXEMPT[ex[0]][:60], callers), positive=known(key) or a.get("bare", False))
                 continue
         if not ex:
             callers = {o[0] for (f_, i_), lst in an.all_origins.items() if f_ == a["fn"] for o in lst}
@@ -158,7 +163,7 @@ def check_raw_values(ctx, F, tag):
             ctx.exempt("C09.R1.raw-value-bounded", key, a["where"], EXEMPT[ex[0]])
             ctx.ob("C09.R1.raw-value-bounded", key + tag, a["where"], True, "reviewed-exemption", EXEMPT[ex[0]] + " [reached via %s]" % a["chain"])
         else:
-            ctx.ob("C09.R1.raw-value-bounded", key + tag, a["where"], False, "guard-dominance", a["detail"] + " [reached via %s]" % a["chain"])
+            ctx.ob("C09.R1.raw-value-bounded", key + tag, a["where"], False, "guard-dominance", a["detail"] + " [reached via %s]" % a["chain"], positive=known(key) or a.get("bare", False))
     ctx.floor("total-entry-points" + tag, FLOOR_ENTRIES)
 
 
@@ -293,15 +298,19 @@ def check_select_clamps(ctx, F, tag, prefix="C09.R6"):
                         q = operand_place(st["rv"]["o"])
                         if q is not None and not q["p"] and q["l"] in copies and not b.dominates(A, bi) and bi != u and not b.dominates(bi, u):
                             copies.add(st["lhs"]["l"])
+                # the refusing side: what runs after the refusing edge when the refusal is followed (a helper's `return None` continues
+                # into the caller's `?` / match on the None arm, not into the Some arm)
+                from guards import reach_on_error_path
+                refusing = reach_on_error_path(b, R)
                 stray = []
                 for bi in sorted(b.reachable()):
-                    if b.dominates(A, bi) or b.dominates(bi, u):
+                    if b.dominates(A, bi) or b.dominates(bi, u) or bi not in refusing:
                         continue
                     blk = b.blocks[bi]
                     reads = [l for st in blk["stmts"] for l in reads_of_stmt(st)] + reads_of_term(blk["term"])
                     if any(l in copies for l in reads):
                         stray.append(loc(blk["term"]["sp"]))
-                from_r = b.reach_from([R])
+                from_r = refusing
                 some_after_refusal = [bi for bi in from_r for st in b.blocks[bi]["stmts"]
                                       if st["s"] == "assign" and st["rv"]["r"] == "agg" and st["rv"].get("vname") == "Some" and st["lhs"]["l"] == 0]
                 none_built = any(st["s"] == "assign" and st["rv"]["r"] == "agg" and st["rv"].get("vname") == "None" and st["lhs"]["l"] == 0
